@@ -1,6 +1,7 @@
 package puppet
 
 import (
+	"net"
 	"sync"
 	"time"
 
@@ -50,7 +51,7 @@ type TargetOutcome struct {
 	ReadErr  string
 	Panic    string
 	Hung     bool
-	Requests int64 // private-key operations, when instrumented
+	Requests int64  // private-key operations, when instrumented
 	Read2N   int    // bytes returned by one more Read after the first error
 	ReadErr2 string // and its error class
 	Alerts   []int  // alert codes the target sent (Config.OnAlert)
@@ -69,15 +70,40 @@ type TLCPSession struct {
 // NewTLCPSession starts the target's Handshake (followed by Reads until an error) in the
 // background. targetIsClient selects the real endpoint's role.
 func NewTLCPSession(cfg *tlcp.Config, targetIsClient bool) *TLCPSession {
+	return NewTLCPSessionOpt(cfg, targetIsClient, SessOpt{})
+}
+
+// SessOpt: optional instrumentation of the transport handed to the endpoint under test.
+type SessOpt struct {
+	WrapT       func(c net.Conn) net.Conn             // tlcp: wrap the target's transport
+	OnTLCP      func(c *tlcp.Conn)                    // called with the target before its goroutine starts
+	WrapD       func(c net.PacketConn) net.PacketConn // dtlcp: wrap the target's PacketConn
+	OnDTLCP     func(c *dtlcp.Conn)
+	OnFinish    func()          // called in the target's goroutine after its last call returned (or panicked)
+	OnHandshake func(err error) // called in the target's goroutine when Handshake returned
+	ReadFrom    bool            // dtlcp: read application data with Conn.ReadFrom instead of Conn.Read
+}
+
+// NewTLCPSessionOpt is NewTLCPSession with an instrumented transport.
+func NewTLCPSessionOpt(cfg *tlcp.Config, targetIsClient bool, opt SessOpt) *TLCPSession {
 	cli, srv, c2s, s2c := tk.StreamPair()
 	c2s.Framed, s2c.Framed = false, false
 	s := &TLCPSession{}
 	cfg.OnAlert = func(code uint8, _ *tlcp.Conn) { s.out.Alerts = append(s.out.Alerts, int(code)) }
 	var pconn *tk.SConn
+	wrap := func(c *tk.SConn) net.Conn {
+		if opt.WrapT != nil {
+			return opt.WrapT(c)
+		}
+		return c
+	}
 	if targetIsClient {
-		s.Target, s.raw, pconn = tlcp.Client(cli, cfg), cli, srv
+		s.Target, s.raw, pconn = tlcp.Client(wrap(cli), cfg), cli, srv
 	} else {
-		s.Target, s.raw, pconn = tlcp.Server(srv, cfg), srv, cli
+		s.Target, s.raw, pconn = tlcp.Server(wrap(srv), cfg), srv, cli
+	}
+	if opt.OnTLCP != nil {
+		opt.OnTLCP(s.Target)
 	}
 	s.link = &StreamLink{Conn: pconn, done: make(chan struct{})}
 	s.P = &Peer{L: s.link, Client: !targetIsClient, Vers: VersionTLCP}
@@ -89,8 +115,14 @@ func NewTLCPSession(cfg *tlcp.Config, targetIsClient bool) *TLCPSession {
 			if r := recover(); r != nil {
 				s.out.Panic = sprint(r)
 			}
+			if opt.OnFinish != nil {
+				opt.OnFinish()
+			}
 		}()
 		err := s.Target.Handshake()
+		if opt.OnHandshake != nil {
+			opt.OnHandshake(err)
+		}
 		s.out.Res = tk.StateTLCP(s.Target, err)
 		if err != nil {
 			return
@@ -171,16 +203,28 @@ type DTLCPSession struct {
 // RunDTLCP runs script (the puppet's program) against a real endpoint under virtual time.
 // cfg's retransmission timeouts should be large so that the script's short waits never race them.
 func RunDTLCP(cfg *dtlcp.Config, targetIsClient bool, script func(p *Peer)) (*DTLCPSession, TargetOutcome) {
+	return RunDTLCPOpt(cfg, targetIsClient, SessOpt{}, script)
+}
+
+// RunDTLCPOpt is RunDTLCP with an instrumented PacketConn.
+func RunDTLCPOpt(cfg *dtlcp.Config, targetIsClient bool, opt SessOpt, script func(p *Peer)) (*DTLCPSession, TargetOutcome) {
 	n := tk.NewVNet()
 	cfg.NewTimer = func(d time.Duration) *dtlcp.TimerHandle {
 		c, stop, reset := n.NewTimerParts(d)
 		return &dtlcp.TimerHandle{C: c, Stop: stop, Reset: reset}
 	}
 	s := &DTLCPSession{Net: n}
+	var tpc net.PacketConn = n.End(1)
+	if opt.WrapD != nil {
+		tpc = opt.WrapD(tpc)
+	}
 	if targetIsClient {
-		s.Target = dtlcp.Client(n.End(1), n.Addr(0), cfg)
+		s.Target = dtlcp.Client(tpc, n.Addr(0), cfg)
 	} else {
-		s.Target = dtlcp.Server(n.End(1), n.Addr(0), cfg)
+		s.Target = dtlcp.Server(tpc, n.Addr(0), cfg)
+	}
+	if opt.OnDTLCP != nil {
+		opt.OnDTLCP(s.Target)
 	}
 	s.link = &DgramLink{N: n, E: n.End(0)}
 	s.P = &Peer{L: s.link, DTLS: true, Client: !targetIsClient, Vers: VersionTLCP}
@@ -201,8 +245,14 @@ func RunDTLCP(cfg *dtlcp.Config, targetIsClient bool, script func(p *Peer)) (*DT
 			if r := recover(); r != nil {
 				s.out.Panic = sprint(r)
 			}
+			if opt.OnFinish != nil {
+				opt.OnFinish()
+			}
 		}()
 		err := s.Target.Handshake()
+		if opt.OnHandshake != nil {
+			opt.OnHandshake(err)
+		}
 		s.out.Res = tk.StateDTLCP(s.Target, err)
 		if err != nil {
 			n.End(1).Close()
@@ -210,7 +260,13 @@ func RunDTLCP(cfg *dtlcp.Config, targetIsClient bool, script func(p *Peer)) (*DT
 		}
 		buf := make([]byte, 20000)
 		for {
-			k, rerr := s.Target.Read(buf)
+			var k int
+			var rerr error
+			if opt.ReadFrom {
+				k, _, rerr = s.Target.ReadFrom(buf)
+			} else {
+				k, rerr = s.Target.Read(buf)
+			}
 			s.out.Read = append(s.out.Read, buf[:k]...)
 			if rerr != nil {
 				s.out.ReadErr = tk.ErrClass(rerr)
